@@ -111,7 +111,10 @@ def _worker_chunk(args):
         seed = derive_seed(master, prop, scenario, i)
         res = one_run(mod, scenario, seed=seed)
         agg["runs"] += 1
-        agg["stats"].update(res.get("stats", {}))
+        st = dict(res.get("stats", {}))
+        for key in [k for k in st if k.endswith("-max")]:      # maxima, not sums
+            agg["stats"][key] = max(agg["stats"].get(key, 0), st.pop(key))
+        agg["stats"].update(st)
         tape = res["tape"]
         agg["fired"].update(tape.counts)
         agg["draws"] += len(tape.values)
@@ -340,6 +343,8 @@ def run_check(prop, tier, master, workers=None, runs_override=None):
     ctx = multiprocessing.get_context("fork")
     harness_errors = []
     stopped_early = False
+    known = load_known()
+    n_unknown = 0
     with concurrent.futures.ProcessPoolExecutor(workers, mp_context=ctx) as pool:
         futs = {pool.submit(_worker_chunk, j): k for k, j in enumerate(jobs)}
         try:
@@ -363,6 +368,9 @@ def run_check(prop, tier, master, workers=None, runs_override=None):
                     continue        # recheck chunks do not count as coverage
                 total_agg["runs"] += agg["runs"]
                 total_agg["per_scenario"][agg["scenario"]] += agg["runs"]
+                for key in [k for k in agg["stats"] if k.endswith("-max")]:
+                    total_agg["stats"][key] = max(total_agg["stats"].get(key, 0),
+                                                  agg["stats"].pop(key))
                 for key in ("stats", "fired"):
                     total_agg[key].update(agg[key])
                 total_agg["draws"] += agg["draws"]
@@ -371,6 +379,12 @@ def run_check(prop, tier, master, workers=None, runs_override=None):
                 for key in ("schedules", "states", "nontrivial"):
                     total_agg[key] |= agg[key]
                 total_agg["violations"].extend(agg["violations"])
+                n_unknown += sum(1 for v in agg["violations"]
+                                 if not any(finding_matches(e, prop, v) for e in known))
+                if n_unknown >= cfg.get("max_unknown_violations", 25) and not stopped_early:
+                    stopped_early = True        # enough to report; do not burn the budget
+                    for f2 in futs:
+                        f2.cancel()
                 if len(total_agg["samples"]) < 3:
                     total_agg["samples"].extend(agg["samples"])
                 if time.perf_counter() - t_start > wall_budget and not stopped_early:
@@ -385,7 +399,6 @@ def run_check(prop, tier, master, workers=None, runs_override=None):
         harness_errors.append(f"NONDETERMINISM: {nondet[:3]}")
 
     # -- verdict ---------------------------------------------------------------------------
-    known = load_known()
     by_sig = collections.OrderedDict()
     for v in sorted(total_agg["violations"], key=lambda v: (v["scenario"], v["index"])):
         by_sig.setdefault(sig_of(v), []).append(v)
